@@ -284,6 +284,9 @@ func runC02(rc *RunCtx) {
 			continue
 		}
 		rc.Nontrivial = true
+		if c.tc == nil && freshRefusalExcused(rc, c.key, c.client.Wrote) {
+			continue
+		}
 		if c.tc == nil {
 			rc.Failf("target-never-contacted", "conn %d: valid handshake under configured key %s but the target %s was never contacted", c.k, c.key, c.addrStr)
 			continue
